@@ -1,36 +1,4 @@
-import VibeProof.Model.SqlCodec
-open VibeProof VibeProof.Proto VibeProof.Codec VibeProof.Sql VibeProof.SqlCodec
+import VibeProof.Model.SqlDriver
+open VibeProof VibeProof.Proto
 
-/-- `query DB Q` → `(rows DET (R …))`: result sequence of the reference evaluator and whether
-    ORDER BY fully determines it; or `(err kind)`. -/
-def handle : List Sx → Sx
-  | [.atom "query", db, q] =>
-    match decDb db, decQuery q with
-    | some d, some qq =>
-      match qq.eval d with
-      | .ok rows =>
-        let det := match qq with
-          | .core c => orderDetermined c.orderBy rows || (c.limit.isNone && c.offset == 0 && false)
-          | _ => false
-        -- with LIMIT/OFFSET the determinism must be judged on the full sorted sequence
-        let det := match qq with
-          | .core c =>
-            if c.limit.isSome || c.offset > 0 then
-              match (Query.core { c with limit := none, offset := 0 }).eval d with
-              | .ok full => orderDetermined c.orderBy full
-              | .error _ => false
-            else det
-          | _ => det
-        -- the result without LIMIT/OFFSET (for tie-robust comparison of limited queries)
-        let full := match qq with
-          | .core c =>
-            match (Query.core { c with limit := none, offset := 0 }).eval d with
-            | .ok f => f
-            | .error _ => rows
-          | _ => rows
-        .list [.atom "rows", .atom (if det then "1" else "0"), encRows rows, encRows full]
-      | .error e => encErr e
-    | _, _ => .atom "bad-request"
-  | _ => .atom "bad-request"
-
-def main : IO Unit := runDriver handle
+def main : IO Unit := runDriver VibeProof.SqlDriver.handleQuery
